@@ -4,7 +4,7 @@ From Pan Require Import Base.Common Base.Sx Model.MetricTable Model.Matcher Mode
 Fixpoint zs_eqb (a b : list Z) : bool :=
   match a, b with [] , [] => true | x :: a', y :: b' => (x =? y) && zs_eqb a' b' | _, _ => false end.
 Definition table_su (tbl : list (Z * list Z * Q)) (r : Z) (ps : list Z) : Q :=
-  match find (fun e => (fst (fst e) =? r) && zs_eqb (snd (fst e)) ps) tbl with
+  match find (fun e => (fst (fst e) =? r) && zs_eqb (sortZ (snd (fst e))) (sortZ ps)) tbl with
   | Some e => snd e | None => (-7 # 1)%Q end.
 Definition dec_tbl (s : sx) : list (Z * list Z * Q) :=
   map (fun e => (sZ (sNth 0 e), sZs (sNth 1 e), sQ (sNth 2 e))) (sL s).
